@@ -196,20 +196,34 @@ def still_fails(case, kind, oracle=None):
 
 
 def shrink(case, kind, budget=80, oracle=None):
-    lines = list(case['lines'])
+    """delta debugging over *units*: an op line together with the oracle lines that follow it (an oracle line
+    judges the op before it, so they are removed together or not at all)"""
+    units, cur, pre = [], [], []
+    for l in case['lines']:
+        if l.startswith('!snap') or l.startswith('dict '):
+            pre.append(l)              # a snapshot / a dict argument belongs to the op that follows it
+            continue
+        if not l.startswith('!'):
+            if cur:
+                units.append(cur)
+            cur = pre + [l]; pre = []
+        else:
+            cur = cur + pre + [l]; pre = []
+    if cur or pre:
+        units.append(cur + pre)
+    flat = lambda us: [l for u in us for l in u]
     n = 0
-    gran = max(1, len(lines) // 2)
+    gran = max(1, len(units) // 2)
     while gran >= 1 and n < budget:
         i = 0
         changed = False
-        while i < len(lines) and n < budget:
-            cand = lines[:i] + lines[i + gran:]
+        while i < len(units) and n < budget:
+            cand = units[:i] + units[i + gran:]
             n += 1
-            c2 = dict(case, lines=cand, cmp=None) if case.get('cmp') else dict(case, lines=cand)
-            if cand and still_fails(c2, kind, oracle):
-                lines = cand; changed = True
+            if cand and still_fails(dict(case, lines=flat(cand)), kind, oracle):
+                units = cand; changed = True
             else:
                 i += gran
         if not changed:
             gran //= 2
-    return dict(case, lines=lines)
+    return dict(case, lines=flat(units))
